@@ -108,7 +108,7 @@ for v, (lay, en) in BLK_LAYOUTS.items():
     for prep, ptxt in BLK_PREP.items():
         add(f"blk_seek_{v}_p{prep}", ["C02", "C03", "C11", "C01"], ["tu/blk_step.c", "$REPO/mtbl/varint.c", "$REPO/mtbl/fixed.c"], "h_blk_seek",
             unwind=6, unwindset={"block_iter_seek.0": 4, "block_iter_seek.1": 4, "block_iter_seek.2": 6, "parse_next_key.0": 5, "ubuf_reserve.0": 2, "vg_cmp.0": 3},
-            timeout=900, tier="quick" if v in ("r_mid", "r_one") else "thorough",
+            timeout=900 if v in ("r_mid", "r_one") else 3000, tier="quick" if v in ("r_mid", "r_one") else "thorough",
             defines=["VG_LAYOUT=" + lay, "VG_EN=%d" % en, "VG_PREP=%d" % prep],
             strength=f"B: block_iter_seek(k) then next, iterator state: {ptxt}; independently encoded block with layout {lay} ({en} entries; key bytes, values, targets symbolic)",
             functions=["block_init", "block_iter_init", "block_iter_seek", "block_iter_next", "block_iter_get", "block_iter_valid", "block_iter_seek_to_first",
